@@ -152,8 +152,9 @@ def finish(res: CheckResult, t0: float, seed: int, repo: str, digests: Dict[str,
         'wall_s': round(time.time() - t0, 3),
         'violations': len(violations),
     }
-    with open(os.path.join(ev_dir, f'{res.prop}.json'), 'w') as f:
-        json.dump(evidence, f, indent=1, default=str)
+    if not os.environ.get('VERIF_NOEVIDENCE'):
+        with open(os.path.join(ev_dir, f'{res.prop}.json'), 'w') as f:
+            json.dump(evidence, f, indent=1, default=str)
     print(f'   obligations={len(res.obligations)} discharged={discharged} known={len(known_hits)} violations={len(violations)} '
           f'errors={len(res.errors)} wall={time.time() - t0:.2f}s -> exit {status}')
     return status
